@@ -31,8 +31,11 @@ fn report<T: Abs + Encode<()> + CborLen<()> + for<'b> Decode<'b, ()>>(b: &[u8]) 
             let mut e = minicbor::Encoder::new(VecSink(Vec::new()));
             let ok = e.encode(&v).is_ok();
             let re = e.into_writer().0;
+            // the same value into a sink that is one byte too small: the class of the encode error
+            let mut small = vec![0u8; re.len().saturating_sub(1)];
+            let short = match minicbor::encode(&v, &mut small[..]) { Ok(()) => "ok", Err(e) => if e.is_write() { "write" } else if e.is_message() { "msg" } else { "other" } };
             let unordered = core::any::type_name::<T>().contains("Hash");
-            json!({"p":"ok","v":v.to_abs(),"pos":d.position(),"reenc_ok":ok,"reenc":if unordered { json!(re.len()) } else { bytes(&re) },"len":minicbor::len(&v)})
+            json!({"p":"ok","v":v.to_abs(),"pos":d.position(),"reenc_ok":ok,"reenc":if unordered { json!(re.len()) } else { bytes(&re) },"len":minicbor::len(&v),"short":short})
         }
         Err(e) => json!({"p":"err","cls":err_class(&e),"pos":d.position(),"epos":epos(&e)})
     }
